@@ -73,12 +73,12 @@ Proof. vm_compute. reflexivity. Qed.
 (* the keys (Codec/Keys.v, compared with HMACKey::new_short_term / new_long_term on generated strings by the wire suite):
    short-term K = OpaqueString(password); long-term K = MD5 or SHA-256 of user ":" OpaqueString(realm) ":" OpaqueString(password) *)
 Example C04_keys_definition : forall user realm password,
-  lt_key user realm password 1 = match av_precis realm, av_precis password with
+  lt_key user realm password 1 = match precis_sp realm, precis_sp password with
                                  | VOk r, VOk p => VOk (md5 (user ++ [58] ++ r ++ [58] ++ p))
                                  | VOk _, VErr | VErr, _ => VErr
                                  | VOk _, VPanic | VPanic, _ => VPanic
                                  | VOk _, VUnmodelled | VUnmodelled, _ => VUnmodelled end.
-Proof. intros. unfold lt_key. destruct (av_precis realm), (av_precis password); reflexivity. Qed.
+Proof. intros. unfold lt_key. destruct (precis_sp realm), (precis_sp password); reflexivity. Qed.
 
 (* ---- the published vectors, through the Gallina decoder with real validation (Rfc/Rfc5769.v): RFC 5769 2.1 validates under
    the short-term key, the low bit of every byte up to and including the MAC (and of the FINGERPRINT length and value) flipped
